@@ -47,7 +47,8 @@ class C01(Prop):
                   "byte-exactly for magic, little-endian length, terminator and double-CRC signature, and the stream the device "
                   "received must equal what was written.")
     level_note = "trusts vf/ref (crc + frame check), the Linux loopback stack, time_machine; rejected arguments legitimately write only the login frame"
-    assumptions = ["the device answers every login with a reply carrying a session id (healthy device)"]
+    assumptions = ["the device answers every login with a reply carrying a session id; 30% of the operations then get one faulty reply "
+                   "(end of stream, garbage, a single zero byte) at a later step: frames written on error / retry paths are judged like any other"]
     anchors = ["aioswitcher.api:SwitcherApi._login", "aioswitcher.device.tools:set_message_length",
                "aioswitcher.device.tools:sign_packet_with_crc_key", "aioswitcher.api.remotes:SwitcherBreezeCommand.__init__",
                "aioswitcher.api:SwitcherType2Api._control_breeze_swing_device", "aioswitcher.api:SwitcherType1Api.create_schedule"]
@@ -82,7 +83,16 @@ class C01(Prop):
                     "target": r.randrange(16, 31), "fan": r.choice(["AUTO", "LOW", "MEDIUM", "HIGH"]), "swing": r.choice(["ON", "OFF"]),
                     "remote_id": irset["IRSetID"]}
         family = r.choice(["thermostat", "shutter"])
-        self.dev.responder = td.auto_responder(thermostat=reported, family=family, rnd=r)
+        healthy = td.auto_responder(thermostat=reported, family=family, rnd=r)
+        inject = {"base": 0, "step": None, "action": None}
+
+        def responder(conn, idx, frame):
+            # faults only after the login has been answered with a session id (the statement's precondition)
+            if inject["step"] is not None and idx - inject["base"] == inject["step"] and frames.classify(frame) not in ("login", "login2"):
+                return inject["action"]
+            return healthy(conn, idx, frame)
+
+        self.dev.responder = responder
         now = gen.epoch(r)
         clock.set_zone(zone)
         nops = r.randrange(6, 11)
@@ -94,7 +104,15 @@ class C01(Prop):
                     op = r.choice(pool)
                     world = {"zone": zone, "now": now, "reported": reported, "irset": irset}
                     args = ops.gen_args(op, r, world, hostile=True)
+                    dead = False
+                    if r.random() < 0.3:
+                        x = r.random()
+                        inject.update(base=len(cl.conn.frames), step=r.randrange(1, 4),
+                                      action=td.EOF if x < 0.5 else (r.randbytes(r.randrange(1, 200)) if x < 0.8 else b"\x00"))
+                        acc.count("ops_with_a_faulty_reply_after_login")
                     rec = await cl.run(op, args, remote)
+                    inject["step"] = None
+                    dead = cl.conn.half_closed
                     acc.count(f"op_{op}")
                     acc.count("op_raised" if rec.outcome == "raise" else "op_returned")
                     for w in rec.writes:
@@ -116,6 +134,8 @@ class C01(Prop):
                             acc.violation(f"contract:{name}:{mech}", f"in-situ contract on {name} failed during {op}", {"op": op, "detail": detail})
                     now = min(now + r.randrange(1, 5000), 2 ** 32 - 2)
                     traveller.move_to(float(now))
+                    if dead:
+                        break   # the stream is at end-of-file: later logins get no session id, nothing more to judge here
                 # conservation: the device received exactly the written stream
                 written = b"".join(cl.spy.writes)
                 ok = await td.settle(cl.conn, len(written))
